@@ -9,14 +9,17 @@ import pickle
 from .common import add_failure, bump, load_known, new_outcome
 
 PROP = "C10"
-PROPS_FILES = ["CogentModel/Props/C10.lean"]
-LEAN_TARGETS = ["CogentModel.Props.C10"]
+PROPS_FILES = ["CogentModel/Props/C10.lean", "CogentModel/Props/C10Tree.lean"]
+LEAN_TARGETS = ["CogentModel.Props.C10", "CogentModel.Props.C10Tree"]
 DRIVER = "drv_c10"
 TRUSTED = [
     "hand-written model lean/CogentModel/Model/RichDict.lean of SeqView.to_rich_dict/from_rich_dict/copy(sliced=True), "
     "_coerce_to_seqview(SeqView), Sequence.to_rich_dict -> deserialise_seq / _moltype_seq_from_rich_dict, "
     "SeqDataView.to_rich_dict, IndelMap/FeatureMap/Span rich dicts and pickle state (tied by exhaustive-box + random "
     "correspondence against the real classes each run); it sits on Model/View.lean (C01) and Spec/PySlice.lean",
+    "hand-written model lean/CogentModel/Model/TreeRich.lean of TreeNode.to_rich_dict -> deserialise_tree (attributes keyed by node "
+    "name, TreeBuilder._unique_name, root renamed 'root'); the newick TEXT is abstracted to (postorder names, arities): quoting / "
+    "tokenising of names is not modelled; tied each run on real trees whose names need no quoting, incl. duplicate / reserved / None names",
     "the per-type OBSERVATION functions of harness/c10_gen.py define what 'observationally equal' means",
     "json, pickle, numpy, sqlite3 are used, not modelled",
 ]
@@ -28,13 +31,13 @@ ASSUMPTIONS = [
     "value / length / strand are observed",
 ]
 
-ROUTES = ("json", "rich", "pickle", "copy")
+ROUTES = ("json", "rich", "pickle", "copy", "deepcopy", "file")
 
 
 # --------------------------------------------------------------------------
 # the round trip itself
 # --------------------------------------------------------------------------
-def roundtrip(x, route):
+def roundtrip(x, route, scratch=None):
     from cogent3.util.deserialise import deserialise_object
 
     if route == "json":
@@ -46,6 +49,20 @@ def roundtrip(x, route):
         return pickle.loads(pickle.dumps(x))
     if route == "copy":
         return x.copy(sliced=True)
+    if route == "deepcopy":
+        return copy.deepcopy(x)
+    if route == "file":
+        # write the JSON to a file and load it back by PATH (deserialise_object opens the file itself)
+        import os
+        import tempfile
+
+        fd, path = tempfile.mkstemp(suffix=".json", dir=str(scratch) if scratch else None)
+        try:
+            with os.fdopen(fd, "w") as out:
+                out.write(x.to_json() if hasattr(x, "to_json") else json.dumps(x.to_rich_dict()))
+            return deserialise_object(path)
+        finally:
+            os.unlink(path)
     raise ValueError(route)
 
 
@@ -68,22 +85,32 @@ def _small(x):
     return x if len(str(x)) < 600 else "(observation of the original)"
 
 
-def check_one(ctx, rec, route):
-    """returns None (holds) | ('skip', why) | [failure tuple (sig, what, expected, got), ...] — one per observed FIELD
+def check_one(ctx, rec, route, info=None, cache=None):
+    """(`info`, if given, receives `state`: the view-state class of the built object; `cache`, if given, keeps the built
+    object of this recipe across routes — used only for substitution models, immutable and expensive to build (codon models);
+    "the original is unchanged" is still checked after every route)
+    returns None (holds) | ('skip', why) | [failure tuple (sig, what, expected, got), ...] — one per observed FIELD
     that differs, so that a listed finding about one field can never hide a difference in another field"""
     from . import c10_gen as G
     from . import c10_hist as H
 
     try:
-        x = H.build(copy.deepcopy(rec), ctx.scratch)
+        if cache is not None and "x" in cache:
+            x = cache["x"]
+        else:
+            x = H.build(copy.deepcopy(rec), ctx.scratch)
+            if cache is not None:
+                cache["x"] = x
         if x is None:
             return ("skip", "history yields None")
         before = G.canon(G.observe(x))
+        if info is not None:
+            info["state"] = H.view_state_class(x)
     except Exception as e:  # the history itself is not executable on this tree: not a round-trip statement
         return ("skip", f"build:{type(e).__name__}")
     fam, var = rec["family"], variant_of(rec)
     try:
-        y = roundtrip(x, route)
+        y = roundtrip(x, route, ctx.scratch)
     except Exception as e:
         return [(f"{fam}/{var}:{route}:raised:{type(e).__name__}", f"{route} round trip raised {type(e).__name__}: {str(e)[:160]}", _small(before), {"exc": type(e).__name__})]
     try:
@@ -116,7 +143,7 @@ def check_one(ctx, rec, route):
 # spec_check: the history-driven round-trip oracle over the registry
 # --------------------------------------------------------------------------
 QUICK_N = dict(
-    seq=140, seqview=50, coll=60, aligned=35, collseq=35, newcoll=35, newcollseq=45, seqsdata=12, tree=60, table=50,
+    seq=140, seqstate=160, collseqstate=45, seqview=50, coll=60, aligned=35, collseq=35, newcoll=35, newcollseq=45, seqsdata=12, tree=60, table=50,
     dictarray=40, distmat=25, alphabet=25, moltype=6, newalphabet=30, indelmap=60, featuremap=60, db=14, model=14,
     lf=24, nc=30, result=30,
 )
@@ -204,14 +231,24 @@ def spec_check(ctx, budget):
         n = max(2, int(QUICK_N[fam] * budget * (1.0 if ctx.thorough else 0.75)))
         for i in range(n):
             if fam == "lf":
-                rec = gen(rng, optimise=(i % 3 == 2))
+                # every 4th recipe puts a branch length on exactly 0.0, cycling through the API routes that lead there
+                # (value= / init= / clamped by upper=0 / constant then freed / constant); the others by seeded choice
+                rec = gen(rng, optimise=(i % 3 == 2), boundary=(["value", "init", "clamp", "free", "const"][(i // 4) % 5] if i % 4 == 1 else None))
             elif fam == "result":
                 rec = gen(rng, heavy=(i % 3 == 2))
+            elif fam == "seqstate":
+                rec = gen(rng, index=i)  # the deterministic state box first, then seeded random histories
             else:
                 rec = gen(rng)
-            for route in routes:
-                r = check_one(ctx, rec, route)
+            cache = {} if fam == "model" else None
+            for ri, route in enumerate(routes):
+                info = {}
+                r = check_one(ctx, rec, route, info, cache)
                 out["evaluations"] += 1
+                if ri == 0 and info.get("state"):
+                    # which view-state classes the histories END in (read off the built object): the export code
+                    # re-bases from (start, stop, step, offset), so coverage is counted per state class, per kind of object
+                    bump(out, "view_state", f"{fam}>{rec['family']}/{variant_of(rec)}:{info['state']}")
                 if r is None:
                     bump(out, "held", f"{fam}:{route}")
                     bump(out, "history", rec.get("hclass", ""))
@@ -300,7 +337,9 @@ def correspondence(ctx):
         "view export/re-basing: exhaustive constructor box (n<=5) + seeded random slice chains (depth<=4, n<=30, offsets) run through "
         "old/new SeqView.to_rich_dict, copy(sliced=True), Sequence JSON round trip and copy, SeqDataView export, compared field by field "
         "(truncated parent positions, start/stop/step/offset/seq_len, parent_start/stop, displayed positions, raised error) with the Lean model; "
-        "IndelMap / FeatureMap constructor -> rich dict -> back and pickle vs the model; non-trivial = distinct case whose view is non-empty or raises"
+        "IndelMap / FeatureMap constructor -> rich dict -> back and pickle vs the model; Sequence(SeqDataView) JSON round trip vs seqRoundtripDataView; "
+        "tree rich dict: postorder node records of real trees (recipes of the oracle + in-place renames into duplicate / reserved / root spellings) -> "
+        "edge_attributes keys and the node records of the deserialised tree vs Model/TreeRich; non-trivial = distinct case whose view is non-empty or raises / tree with > 1 node"
     )
     rng = ctx.subrng("corr")
     text_mt = new_moltype.get_moltype("text")
@@ -375,6 +414,11 @@ def correspondence(ctx):
             if "err" not in rd:
                 rd = dict(seq=_idx(rd["seq"]), step=rd["step"], offset=rd["offset"])
             push("dataview_rich", n, st, rd, dict(meta, impl="sdv", what="SeqDataView.to_rich_dict"))
+            if len(dv) > 0:
+                # the Sequence a new-style collection hands out (SeqDataView inside) through JSON: Sequence.to_rich_dict ->
+                # SeqDataView.to_rich_dict -> _moltype_seq_from_rich_dict (model: seqRoundtripDataView; theorem dataview_roundtrip_partial)
+                mk = lambda vv: text_mt.make_seq(seq=vv, name="a", check_seq=False)  # as SeqsData.__getitem__ does
+                push("dataview", n, st, guarded(lambda: _real_pair(deserialise_object(json.loads(mk(dv).to_json()))._seq, "str_value")), dict(meta, impl="sdv", what="Sequence(SeqDataView) json"))
 
     # _coerce_to_seqview(SeqView, ..., annotation_offset) on its own: the ValueError branch (view offset AND annotation offset)
     # is no longer reachable through the repaired copy/JSON routes, so it is tied directly (both modules)
@@ -394,7 +438,7 @@ def correspondence(ctx):
     # The model mirrors the code as it is NOW. One modelled branch still loses information (SeqDataView.to_rich_dict,
     # `dataview_export_partial` / `_counter`): if the implementation is repaired it must agree with the branch the
     # full-strength statement is about (`view_rich`) instead.
-    REPAIRED = {"dataview_rich": "view_rich"}
+    REPAIRED = {"dataview_rich": "view_rich", "dataview": "new"}
     alt_idx = [i for i, (c, rq) in enumerate(reqs) if rq["path"] in REPAIRED]
     alts = dict(zip(alt_idx, ctx.driver.batch([("rebase", dict(reqs[i][1], path=REPAIRED[reqs[i][1]["path"]])) for i in alt_idx])))
     for i, ((cmd, rq), real, mod, meta) in enumerate(zip(reqs, reals, model, metas)):
@@ -495,11 +539,69 @@ def correspondence(ctx):
         mreals.append(dict(json_live=fstate(j), pickle=fstate(p)))
         mmetas.append(dict(spans=live["spans"], parent_length=live["parent_length"], history=hist))
         bump(out, "fstate_history", hist)
+    # ---- tree rich dict (Model/TreeRich.lean, theorems of Props/C10Tree.lean): real trees from the tree recipes of the
+    # oracle (+ in-place renames into the builder's reserved / duplicate / root spellings, which the model mirrors too),
+    # flattened to their postorder node records; compared: keys of edge_attributes in order, and the node records of
+    # deserialise_object(json.loads(t.to_json())). Names that need newick quoting / tokenising are outside the model's
+    # abstraction (the newick TEXT is not modelled) and are counted, not compared.
+    import re
+
+    from . import c10_hist as H
+
+    plain = re.compile(r"^[A-Za-z0-9_.\-]+$")
+    enc = lambda v: json.dumps(G_canon(v), sort_keys=True)
+
+    def flatten(t):
+        recs = []
+        for e in t.get_edge_vector(include_root=True):
+            ps = dict(e.params)
+            ln = ps.pop("length", None)  # a node without the key has `.length` None, as a freshly parsed one
+            # a node whose name is None (bifurcating() inserts such nodes) prints "" like a node named "": encoded as ""
+            recs.append(dict(name="" if e.name is None else str(e.name), length=None if ln is None else enc(ln), params=sorted([str(k), enc(v)] for k, v in ps.items()), arity=len(e.children)))
+        return recs
+
+    from .c10_gen import canon as G_canon
+
+    trng = ctx.subrng("corr:tree")
+    for i in range(ctx.budget(400, 6000)):
+        rec = H.gen_tree(trng, safe=(i % 2 == 0))
+        try:
+            t = H.build(copy.deepcopy(rec), ctx.scratch)
+            if trng.random() < 0.3:
+                nodes = t.get_edge_vector(include_root=True)
+                tgt = trng.choice(nodes)
+                tgt.name = trng.choice(["edge", "edge.0", "edge.1", "root", "x.2", trng.choice(nodes).name, trng.choice(nodes).name + ".2"])
+                rec = dict(rec, ops=rec["ops"] + [["rename_any", tgt.name]])
+            nodes = flatten(t)
+        except Exception as e:
+            bump(out, "tree_rich", f"skipped:build:{type(e).__name__}")
+            continue
+        if not all(n["name"] == "" or plain.match(n["name"]) for n in nodes):
+            bump(out, "tree_rich", "skipped:name-needs-newick-quoting")
+            continue
+        try:
+            rd = t.to_rich_dict()
+            real = dict(attr_keys=["" if k is None else str(k) for k in rd["edge_attributes"]], back=flatten(deserialise_object(json.loads(t.to_json()))))
+        except Exception as e:
+            bump(out, "tree_rich", f"skipped:raises:{type(e).__name__}")
+            continue
+        names = [n["name"] for n in nodes]
+        cls = "wf" if len(set(names)) == len(names) and names[-1] == "root" and "edge" not in names and "" not in names else (
+            "duplicate-names" if len(set(names)) != len(names) else ("named-root" if names[-1] != "root" else "reserved-name"))
+        bump(out, "tree_rich", cls)
+        mreqs.append(("tree_rich", dict(nodes=nodes)))
+        mreals.append(real)
+        mmetas.append(dict(recipe=rec, nodes=nodes, cls=cls))
     for (cmd, rq), real, mod in zip(mreqs, mreals, ctx.driver.batch(mreqs)):
         out["evaluations"] += 1
         bump(out, "path", cmd)
+        if cmd == "tree_rich":
+            mod = dict(attr_keys=mod["attr_keys"], back=mod["back"])
         if real != mod:
             add_failure(out, "corr", f"{cmd} map model differs from the implementation", rq, mod, real, confirmed=False)
+        elif cmd == "tree_rich":
+            if len(rq["nodes"]) > 1:
+                out["nontrivial"].add((cmd, json.dumps(rq, sort_keys=True)))
         elif "err" in real or rq.get("gap_pos") or rq.get("spans"):
             out["nontrivial"].add((cmd, json.dumps(rq, sort_keys=True)))
     return out
